@@ -16,7 +16,7 @@ PROPERTY = 'C06'
 META = {
     'bounds': {'quick': 'parallel path with one design per batch (5 scripted outcome patterns); one design: all 4^k fault patterns of up to 5 objective calls (dim<=2, symbolic box); batch of 2 designs with <=3 injected faults',
                'thorough': 'batch of 2 designs with all patterns (<=6 injected faults), batch of 3 with <=5 faults; one design dim<=3, <=2 constraints'},
-    'stubs': ['Problem.evaluate -> uninterpreted function + symbolic fault choice per call',
+    'stubs': ['Problem.evaluate -> uninterpreted function + symbolic fault choice per call (every second injected TimeoutError / RuntimeError is an instance of a subclass)',
               'random() (artap.utils) -> fresh real in [0,1)',
               'round(x) -> fresh integer k with |k-x|<=1/2 (superset of round-half-even)'],
     'assumptions': ['floats as reals (the 1e-12 grid of gen_number is exact in the reals; replays use doubles)',
